@@ -2,8 +2,9 @@
 """rs2lean6c: phase 6c of the Rust -> Lean translator: the remaining byte-level functions of functions.rs -
 the RENDERER (`to_string`, `to_pretty_string`, `container_to_string`, `scalar_to_string`,
 `PrettyOpts::generate_indent`), the SERDE BRIDGE (`to_serde_json`, `to_serde_json_object`,
-`containter_to_serde_json`, `containter_to_serde_json_object`, `scalar_to_serde_json`) and the editors phase 4 left
-(`object_insert_jsonb`, `array_overlap_jsonb`).
+`containter_to_serde_json`, `containter_to_serde_json_object`, `scalar_to_serde_json`) and the editors phases 4 / 5 left
+(`object_insert_jsonb`, `array_overlap_jsonb`, the `strip_nulls` family, `build_array`, `build_object`, the
+`delete_by_keypath` family).
 Extends the subset of tools/rs2lean5b.py (-> rs2lean4.py -> rs2lean3.py -> rs2lean2.py -> rs2lean.py; a few
 expression forms are shared with rs2lean5a.py) with
   * recursive groups whose members take `&mut usize` / `&mut String` parameters and return `Result<(), Error>`
@@ -17,7 +18,8 @@ expression forms are shared with rs2lean5a.py) with
     (`Rs.sj*` of RustPrelude6c.lean, a MAPPING), `for (k, je, v) in <iterator struct>` with `?` in the body;
   * a public function whose text branch `if !is_jsonb(value) { let val = parse_value(value)?; return f(&val.to_vec()); }`
     is kept as a parameter `text__` (as in phases 4 / 5a).
-Output: lean/JsonbModel/Generated/Translated6c.lean (namespace Jsonb.Tr, after the phase-1..4 files).
+Output: lean/JsonbModel/Generated/Translated6c.lean (namespace Jsonb.Tr, after the phase-1..4 files and the phase-5a
+file, which declares `KeyPath`).
 The semantics of every new primitive is in the hand-written lean/JsonbModel/RustPrelude6c.lean.
 Same conventions as the earlier phases (see tools/RS2LEAN.md): reads $VERIF_REPO (default /repo), writes
 the output only when it changes, prints ONE JSON status line last; `--stdout` prints the text and writes
@@ -588,8 +590,8 @@ def _user_call3(self, sig, args, recv=None):
 HEADER = """-- GENERATED by tools/rs2lean6c.py from the Rust sources of the crate (src/*.rs); do not edit.
 -- Phase 6c: the renderer, the serde bridge and the remaining editors of functions.rs.  One block per translated
 -- function or recursive group (hoisted loop bodies `<fn>.loop<k>` first).  The meaning of every `Rs.*` / `Ctl.*`
--- name is in JsonbModel/RustPrelude.lean … RustPrelude4.lean, RustPrelude5a.lean and RustPrelude6c.lean (the type
--- `KeyPath` is declared in Generated/Translated5a.lean); the agreement theorems are in Proofs/TranslatedAgreeI*.lean.
+-- name is in JsonbModel/RustPrelude.lean … RustPrelude4.lean, RustPrelude5a.lean and RustPrelude6c.lean; the
+-- agreement theorems are in Proofs/TranslatedAgreeI*.lean.
 import JsonbModel.Generated.Translated5a
 import JsonbModel.RustPrelude6c
 
@@ -686,7 +688,8 @@ def pass_fmt(lines, names):
 
 def generate(repo, prev_text):
     world = R5b.phase4_world(repo)
-    # `enum KeyPath` of keypath.rs is declared by phase 5a (Generated/Translated5a.lean, imported): registered here
+    # `enum KeyPath` of keypath.rs (the `delete_by_keypath` family) is declared by phase 5a
+    # (Generated/Translated5a.lean, imported by the header): registered here
     try:
         R3.emit_enum3(world, "src/keypath.rs", "KeyPath")
     except Unsupported:
